@@ -81,7 +81,12 @@ func pickOp(rc *core.RunCtx, v *uni.Variant, src opSource) ops.Op {
 		rc.W.Count("gen_gaveup")
 	}
 	rc.W.Count("corpus_ops")
-	return src.Corpus[t.Choose(len(src.Corpus), "op")]
+	op := src.Corpus[t.Choose(len(src.Corpus), "op")]
+	// a variant may name its mutation root differently (schema { mutation: RootMutation })
+	if m := schemaOf(rc, v).Mutation; m != nil && m.Name != "Mutation" {
+		op.Query = strings.ReplaceAll(op.Query, " on Mutation ", " on "+m.Name+" ")
+	}
+	return op
 }
 
 func pickPlan(rc *core.RunCtx, faultsOnly bool) *refexec.Plan {
